@@ -184,7 +184,7 @@ pub fn info_map(i: &Option<Vec<(String, J)>>) -> Option<Map<String, Value>> {
 
 pub const IDS: [&str; 12] = ["p", "q", "r", "s", "!t", "u v", "é", "w@x", "", "k9", "zz", "obj1"];
 pub const FIELD_KEYS: [&str; 5] = ["v", "n", "t", "A", "_deleted"];
-pub const ROOT_ARR_KEYS: [&str; 2] = ["a\u{266D}", "b\u{266D}"];
+pub const ROOT_ARR_KEYS: [&str; 3] = ["a\u{266D}", "b\u{266D}", "x@y\u{266D}"];
 pub const SUB_KEY: &str = "sub\u{266D}";
 pub const OBJ_KEY: &str = "o\u{266D}";
 
@@ -400,6 +400,8 @@ pub enum EditStep {
     RemoveKey { arr: u16 },
     Replace { items: Vec<(u16, u16, Content)>, t: Option<J>, o: FlatKind },
     Clear,
+    /// many elements at once (more objects than the default cache capacities, long arrays)
+    Bulk { arr: u16, n: u8, v: Option<J> },
 }
 
 fn free_id(n: &Node, s: u16, no_bang: bool) -> Option<String> {
@@ -532,7 +534,7 @@ pub fn apply_edit(root: &mut Node, steps: &[EditStep]) -> usize {
                     continue;
                 }
                 let keys: Vec<&str> = if p.is_empty() {
-                    vec![ROOT_ARR_KEYS[0], ROOT_ARR_KEYS[1], OBJ_KEY]
+                    vec![ROOT_ARR_KEYS[0], ROOT_ARR_KEYS[1], OBJ_KEY, ROOT_ARR_KEYS[2]]
                 } else {
                     vec![SUB_KEY, OBJ_KEY]
                 };
@@ -595,6 +597,28 @@ pub fn apply_edit(root: &mut Node, steps: &[EditStep]) -> usize {
                 *root = Node::default();
                 eff += 1;
             }
+            EditStep::Bulk { arr, n, v } => {
+                let sl = slots(root);
+                let slot = sl[sel(*arr, sl.len())].clone();
+                let used = root.all_ids();
+                let mut k = 0u32;
+                for _ in 0..*n {
+                    // ids outside the small pool: e00, e01, ...
+                    let id = loop {
+                        let c = format!("e{:02}", k);
+                        k += 1;
+                        if !used.iter().any(|u| *u == c) {
+                            break c;
+                        }
+                    };
+                    let mut e = Node { id: Some(id), ..Default::default() };
+                    if let Some(v) = v {
+                        e.fields.insert("v".into(), v.to_value());
+                    }
+                    insert_into(root, &slot, u16::MAX, e);
+                }
+                eff += 1;
+            }
         }
     }
     eff
@@ -631,7 +655,7 @@ pub fn edit_step(rich: bool) -> BoxedStrategy<EditStep> {
         5 => (any::<u16>(), any::<u16>(), any::<u16>()).prop_map(|(elem, arr, pos)| EditStep::Move { elem, arr, pos }),
         5 => (any::<u16>(), 0u8..5, prop::option::weighted(0.85, val))
             .prop_map(|(obj, key, val)| EditStep::SetField { obj, key, val }),
-        3 => (any::<u16>(), 0u8..3, flatkind(rich)).prop_map(|(obj, key, kind)| EditStep::SetFlat { obj, key, kind }),
+        3 => (any::<u16>(), 0u8..4, flatkind(rich)).prop_map(|(obj, key, kind)| EditStep::SetFlat { obj, key, kind }),
         1 => any::<u16>().prop_map(|arr| EditStep::Reverse { arr }),
         2 => any::<u16>().prop_map(|arr| EditStep::Rotate { arr }),
         1 => any::<u16>().prop_map(|arr| EditStep::RemoveKey { arr }),
@@ -642,6 +666,7 @@ pub fn edit_step(rich: bool) -> BoxedStrategy<EditStep> {
         )
             .prop_map(|(items, t, o)| EditStep::Replace { items, t, o }),
         1 => Just(EditStep::Clear),
+        1 => (any::<u16>(), 5u8..30, prop::option::of(jlight())).prop_map(|(arr, n, v)| EditStep::Bulk { arr, n, v }),
     ]
     .boxed()
 }
